@@ -641,7 +641,7 @@ def model_specs(draw, profile=None):
         for i in range(n_tr):
             e = {}
             pairs = [(a, b) for a in pops for b in pops if a != b]
-            for a, b in g.subset(pairs, min_size=1, max_size=3):
+            for a, b in g.subset(pairs, min_size=1, max_size=3 if n_pops < 3 else 6):
                 u = g.pick(["rate", "rate", "number", "duration"])
                 ent = g.series(u, years, positive=(u == "duration"))
                 ent["u"] = u
